@@ -10,7 +10,7 @@
               | C!<sfmt>!<cols>!<plain>    rec.copy_fields_from(source)   plain = - | <name>=v,v,v|...
      -> <step>;<step>...   step = ok|err:E @ <cols> @ <name>=v,v,..|...   (state after the step; values read per sub-field)
 
-   sf_world <wop>;<wop>;...          several record objects over shared memory (Model/SubFieldRec.v, wrun from the empty world)
+   sf_world <wop>;<wop>;...          several record objects over shared memory (Model/SubFieldRec.v, wrun7 from the empty world; P!a!fields!name!vs = wattr)
         wop   = N!<fmt>!<cols>             a record with memory of its own
               | L!<a>!<chain>              a view of object a (chain as above; - = all of it)
               | G!<a>!<idx>                a copy of the points idx of object a
@@ -105,6 +105,12 @@ let parse_wop t = match String.split_on_char '!' t with
   | ["F"; a; s; plain] -> WCopyFrom (nat_of_int (int_of_string a), nat_of_int (int_of_string s), parse_plain plain)
   | _ -> failwith "wop"
 
+(* round 7: P!a!fields!name!vs = obj.name = vs by attribute (Model/SubFieldRec.v wattr); every other token is a wop *)
+let parse_wop7 t = match String.split_on_char '!' t with
+  | ["P"; a; fields; name; vs] ->
+    WAttr (nat_of_int (int_of_string a), List.map coq_string_of (split_on ',' fields), coq_string_of name, zlist_of_tok vs)
+  | _ -> WOp (parse_wop t)
+
 let parse_route t =
   let n = String.length t in
   let tail k = String.sub t k (n - k) in
@@ -134,11 +140,11 @@ let dispatch cmd a =
     String.concat ";" (List.map (fun (r', e) ->
         (match e with None -> "ok" | Some e -> "err:" ^ err_name e) ^ "@" ^ tok_of_cols r' ^ "@" ^ reads r') (run fmt r ops))
   | "sf_world" ->
-    let ops = List.map parse_wop (split_on ';' a.(0)) in
+    let ops = List.map parse_wop7 (split_on ';' a.(0)) in
     let objs w = let n = List.length (snd w) in
       String.concat "#" (List.init n (fun i -> tok_of_cols (obj_read w (nat_of_int i)))) in
     String.concat ";" (List.map (fun (w, e) ->
-        (match e with None -> "ok" | Some e -> "err:" ^ err_name e) ^ "@" ^ objs w) (wrun ([], []) ops))
+        (match e with None -> "ok" | Some e -> "err:" ^ err_name e) ^ "@" ^ objs w) (wrun7 ([], []) ops))
   | "sf_lookup" ->
     let fmt = z_of_string a.(0) in
     let fields = List.map coq_string_of (split_on ',' a.(1)) in
